@@ -335,7 +335,11 @@ func registerIntrinsics(e *Engine) {
 		return d
 	})
 	reg("runtime.NumCPU", func(th *Thread, fn *ssa.Function, a []Value) Value {
+		if v, ok := th.st.ghost["numcpu"]; ok {
+			return v
+		}
 		n := th.st.freshVar("numcpu", 64)
+		th.st.ghost["numcpu"] = n
 		th.st.solver.Assert(mkCmp("bvsge", n, mkBV(64, 1)))
 		th.st.solver.Assert(mkCmp("bvsle", n, mkBV(64, 1024)))
 		return n
